@@ -129,6 +129,20 @@ pub unsafe fn stub_realloc_nonnull(ptr: std::ptr::NonNull<u8>, layout: std::allo
     unsafe { stub_realloc(ptr.as_ptr(), layout, new_size) }
 }
 
+/// `std::sync::Mutex::lock` without the contended path: the evaluator's only mutex is the
+/// call-statistics log and the harnesses are single-threaded, so the lock is always free.
+pub fn stub_mutex_lock<T>(m: &std::sync::Mutex<T>) -> std::sync::LockResult<std::sync::MutexGuard<'_, T>> {
+    match m.try_lock() {
+        Ok(g) => Ok(g),
+        Err(std::sync::TryLockError::Poisoned(p)) => Err(p),
+        Err(std::sync::TryLockError::WouldBlock) => {
+            #[cfg(kani)]
+            kani::assume(false);
+            unreachable!()
+        }
+    }
+}
+
 /// `std::time::Instant::now` (clock_gettime FFI): an arbitrary instant. The evaluator only
 /// stores it in the call-statistics log.
 pub fn stub_instant_now() -> std::time::Instant {
@@ -177,6 +191,8 @@ macro_rules! kproof {
         #[kani::stub(alloc::alloc::realloc_nonnull, crate::util::stub_realloc_nonnull)]
         #[kani::stub(std::backtrace::Backtrace::capture, crate::util::stub_backtrace_capture)]
         #[kani::stub(alloc::fmt::format, crate::util::stub_format)]
+        #[kani::stub(std::time::Instant::now, crate::util::stub_instant_now)]
+        #[kani::stub(std::sync::Mutex::lock, crate::util::stub_mutex_lock)]
         #[kani::stub(blots_core::values::Value::stringify, crate::util::stub_stringify)]
         #[kani::stub(blots_core::units::convert, crate::util::stub_units_convert)]
         #[kani::stub(::anyhow::Error::msg, crate::util::stub_anyhow_msg_panic)]
@@ -194,6 +210,8 @@ macro_rules! kproof {
         #[kani::stub(alloc::alloc::realloc_nonnull, crate::util::stub_realloc_nonnull)]
         #[kani::stub(std::backtrace::Backtrace::capture, crate::util::stub_backtrace_capture)]
         #[kani::stub(alloc::fmt::format, crate::util::stub_format)]
+        #[kani::stub(std::time::Instant::now, crate::util::stub_instant_now)]
+        #[kani::stub(std::sync::Mutex::lock, crate::util::stub_mutex_lock)]
         #[kani::stub(blots_core::values::Value::stringify, crate::util::stub_stringify)]
         #[kani::stub(blots_core::units::convert, crate::util::stub_units_convert)]
         #[kani::stub(::anyhow::Error::msg, crate::util::stub_anyhow_msg_cut)]
@@ -211,6 +229,8 @@ macro_rules! kproof {
         #[kani::stub(alloc::alloc::realloc_nonnull, crate::util::stub_realloc_nonnull)]
         #[kani::stub(std::backtrace::Backtrace::capture, crate::util::stub_backtrace_capture)]
         #[kani::stub(alloc::fmt::format, crate::util::stub_format)]
+        #[kani::stub(std::time::Instant::now, crate::util::stub_instant_now)]
+        #[kani::stub(std::sync::Mutex::lock, crate::util::stub_mutex_lock)]
         #[kani::stub(blots_core::values::Value::stringify, crate::util::stub_stringify)]
         #[kani::stub(blots_core::units::convert, crate::util::stub_units_convert)]
         #[kani::stub(::anyhow::Error::msg, crate::util::stub_anyhow_msg_panic)]
@@ -229,6 +249,8 @@ macro_rules! kproof {
         #[kani::stub(alloc::alloc::realloc_nonnull, crate::util::stub_realloc_nonnull)]
         #[kani::stub(std::backtrace::Backtrace::capture, crate::util::stub_backtrace_capture)]
         #[kani::stub(alloc::fmt::format, crate::util::stub_format)]
+        #[kani::stub(std::time::Instant::now, crate::util::stub_instant_now)]
+        #[kani::stub(std::sync::Mutex::lock, crate::util::stub_mutex_lock)]
         #[kani::stub(blots_core::values::Value::stringify, crate::util::stub_stringify)]
         #[kani::stub(blots_core::units::convert, crate::util::stub_units_convert)]
         #[kani::stub(::anyhow::Error::msg, crate::util::stub_anyhow_msg_cut)]
@@ -253,9 +275,9 @@ macro_rules! kproof {
 /// set by the generated native replay tests: the arena then allocates normally (Box/Vec/Rc),
 /// because natively a Box over a static would be freed on unwind.  Never written under Kani,
 /// so it is the constant `false` for symbolic execution.
-pub static mut NATIVE_REPLAY: bool = false;
+pub static mut NATIVE_REPLAY: u32 = 0x4e41_5430; // 'NAT0' = symbolic execution, 'NAT1' = native replay (never all-zero, see arena)
 pub fn native() -> bool {
-    unsafe { NATIVE_REPLAY }
+    unsafe { NATIVE_REPLAY == 0x4e41_5431 }
 }
 
 // ---- typed static arena -------------------------------------------------------------------
@@ -274,13 +296,21 @@ pub mod arena {
     pub const N_CNODES: usize = 40;
     pub const N_CELLS: usize = 12;
     static mut NODES: [SpannedExpr; N_NODES] = [const { Spanned { node: Expr::Null, span: DSPAN } }; N_NODES];
-    static mut NODES_NEXT: usize = 0;
+    // NOTE: the counters start at distinctive non-zero values.  Kani's codegen maps a constant
+    // allocation (e.g. alloc::raw_vec's ZERO_CAP = 8 zero bytes, read by every Vec::new()) to *some*
+    // symbol with identical initial bytes - measured: it picked a zero-initialised `static mut`
+    // counter of this module, so every fresh Vec had capacity NODES_NEXT.  No mutable static of
+    // the harness crate may therefore start as all-zero bytes.
+    const M_NODES: usize = 0x4e4f_4445_5f4e_0000;
+    const M_CNODES: usize = 0x434e_4f44_455f_0000;
+    const M_CELLS: usize = 0x4345_4c4c_535f_0000;
+    static mut NODES_NEXT: usize = M_NODES;
     static mut CNODES: [Commented<SpannedExpr>; N_CNODES] = [const {
         Commented { leading: Vec::new(), node: Spanned { node: Expr::Null, span: DSPAN }, trailing: None }
     }; N_CNODES];
-    static mut CNODES_NEXT: usize = 0;
+    static mut CNODES_NEXT: usize = M_CNODES;
     static mut CELLS: [HeapValue; N_CELLS] = [const { HeapValue::List(Vec::new()) }; N_CELLS];
-    static mut CELLS_NEXT: usize = 0;
+    static mut CELLS_NEXT: usize = M_CELLS;
 
     /// same layout as alloc::rc::RcInner (repr(C): strong, weak, value)
     #[repr(C)]
@@ -311,9 +341,9 @@ pub mod arena {
             return Box::new(Spanned { node: e, span: DSPAN });
         }
         unsafe {
-            let i = NODES_NEXT;
+            let i = NODES_NEXT - M_NODES;
             check(i < N_NODES, "arena: out of AST nodes");
-            NODES_NEXT = i + 1;
+            NODES_NEXT = M_NODES + i + 1;
             let p = (&raw mut NODES as *mut SpannedExpr).add(i);
             std::ptr::write(p, Spanned { node: e, span: DSPAN });
             Box::from_raw(p)
@@ -347,7 +377,7 @@ pub mod arena {
             return Expr::List(v);
         }
         unsafe {
-            let start = CNODES_NEXT;
+            let start = CNODES_NEXT - M_CNODES;
             check(start + 3 <= N_CNODES, "arena: out of list-element nodes");
             let base = (&raw mut CNODES as *mut Commented<SpannedExpr>).add(start);
             let mut n = 0;
@@ -364,7 +394,7 @@ pub mod arena {
                 n += 1;
             }
             check(start + n <= N_CNODES, "arena: out of list-element nodes");
-            CNODES_NEXT = start + n;
+            CNODES_NEXT = M_CNODES + start + n;
             Expr::List(Vec::from_raw_parts(base, n, n))
         }
     }
@@ -387,7 +417,7 @@ pub mod arena {
             return v;
         }
         unsafe {
-            let start = NODES_NEXT;
+            let start = NODES_NEXT - M_NODES;
             check(start + 3 <= N_NODES, "arena: out of AST nodes");
             let base = (&raw mut NODES as *mut SpannedExpr).add(start);
             let mut n = 0;
@@ -404,7 +434,7 @@ pub mod arena {
                 n += 1;
             }
             check(start + n <= N_NODES, "arena: out of AST nodes");
-            NODES_NEXT = start + n;
+            NODES_NEXT = M_NODES + start + n;
             Vec::from_raw_parts(base, n, n)
         }
     }
@@ -423,7 +453,10 @@ pub mod arena {
     /// `c00_q_value_word_layout` checks the layout assumption on every run.
     pub fn vals(items: [Option<Value>; 4]) -> Vec<Value> {
         let n = items[0].is_some() as usize + items[1].is_some() as usize + items[2].is_some() as usize + items[3].is_some() as usize;
-        if native() || n == 0 {
+        if n == 0 {
+            return Vec::new();
+        }
+        if native() {
             return items.into_iter().flatten().collect();
         }
         let mut v: Vec<Value> = Vec::with_capacity(n);
@@ -509,9 +542,9 @@ pub mod arena {
             }
         }
         unsafe {
-            let i = CELLS_NEXT;
+            let i = CELLS_NEXT - M_CELLS;
             check(i < N_CELLS, "arena: too many initial heap cells");
-            CELLS_NEXT = i + 1;
+            CELLS_NEXT = M_CELLS + i + 1;
             std::ptr::write((&raw mut CELLS as *mut HeapValue).add(i), c);
             i
         }
@@ -530,9 +563,27 @@ pub mod arena {
             return Rc::new(RefCell::new(Heap::verif_from_values(cells)));
         }
         unsafe {
-            let v = Vec::from_raw_parts(&raw mut CELLS as *mut HeapValue, CELLS_NEXT, N_CELLS);
+            let v = Vec::from_raw_parts(&raw mut CELLS as *mut HeapValue, CELLS_NEXT - M_CELLS, N_CELLS);
             HEAP_RC.value = RefCell::new(Heap::verif_from_values(v));
             Rc::from_raw(&raw const HEAP_RC.value)
+        }
+    }
+    static mut CELLS_B: [HeapValue; 4] = [const { HeapValue::List(Vec::new()) }; 4];
+    static mut HEAP_RC_B: RcBoxLike<RefCell<Heap>> = RcBoxLike {
+        strong: Cell::new(1),
+        weak: Cell::new(1),
+        value: RefCell::new(Heap::verif_from_values(Vec::new())),
+    };
+    /// a second, independent heap (typed static as well) whose cell 0 is the given list
+    pub fn second_heap_with_list(items: Vec<Value>) -> Rc<RefCell<Heap>> {
+        if native() {
+            return Rc::new(RefCell::new(Heap::verif_from_values(vec![HeapValue::List(items)])));
+        }
+        unsafe {
+            std::ptr::write(&raw mut CELLS_B as *mut HeapValue, HeapValue::List(items));
+            let v = Vec::from_raw_parts(&raw mut CELLS_B as *mut HeapValue, 1, 4);
+            HEAP_RC_B.value = RefCell::new(Heap::verif_from_values(v));
+            Rc::from_raw(&raw const HEAP_RC_B.value)
         }
     }
     pub fn env() -> Rc<Environment> {
@@ -593,4 +644,17 @@ macro_rules! av {
     ($a:expr, $b:expr) => { $crate::util::arena::vals2($a, $b) };
     ($a:expr, $b:expr, $c:expr) => { $crate::util::arena::vals3($a, $b, $c) };
     ($a:expr, $b:expr, $c:expr, $d:expr) => { $crate::util::arena::vals4($a, $b, $c, $d) };
+}
+
+/// `evaluate_ast` replaced by a constant: used only by the binding-phase harnesses of C04, which
+/// decide what `FunctionDef::call` does *before* the body is evaluated (a lambda body stored
+/// inline in `FunctionDef::Lambda` is an enum inside an enum payload - CBMC loses its tag).
+pub fn stub_evaluate_ast_null(
+    _e: &SpannedExpr,
+    _h: Rc<RefCell<Heap>>,
+    _b: Rc<Environment>,
+    _d: usize,
+    _s: Rc<str>,
+) -> Result<Value, blots_core::error::RuntimeError> {
+    Ok(Value::Null)
 }
